@@ -198,13 +198,7 @@ def _alias(inst, name):
     return _reg(j)
 
 
-def _rc(c):
-    return [(3 - b) if b < 4 else b for b in reversed(c)]
-
-
-RICH = [(b"s1", [(b"c1", C1), (b"c2", [3, 3, 2]), (b"c3", [1])]),
-        (b"s2", [(b"c1", _rc(C1)), (b"c2", C1[:8] + [7] + C1[9:]), (b"c3", C1)]),
-        (b"s3", [(b"c1", C1[:7] + [4, 4, 4, 4] + C1[7:]), (b"c2", C2)])]
+from harness.pipe import RICH
 QUICK += [_alias(_C02.INSTANCES["pack_raw"], "pack_raw").name, _alias(_C02.INSTANCES["pack_lz"], "pack_lz").name,
           _reg(Pipeline("pipe_rt_api_t1", 1, RICH, splitters=SPL, preempt=0, driver="api")).name,
           _reg(Pipeline("pipe_rt_multi_t2", 2, RICH, splitters=SPL, preempt=0, driver="multi")).name]
@@ -215,9 +209,12 @@ THOROUGH += ["pack_raw", "pack_lz", _reg(Pipeline("T_pipe_rt_api_t2_p1", 2, RICH
 #     position with EVERY code (incl. N, an IUPAC code, the unknown-letter code 30); T: whole-contig reverse complement x one deletion x one insertion
 from harness.pipe import TWO as _TWO
 QUICK.append(_reg(Pipeline("pipe_edit_subst_t1", 1, _TWO, splitters=SPL, preempt=0, driver="api", edits=[("subst", 1, 0)])).name)
+# a deleted range of 2..8 bases at every position, the contig forward or reverse-complemented (missing splitters, whole-segment assignment to a neighbour group)
+QUICK.append(_reg(Pipeline("pipe_edit_delrange_rc_t1", 1, _TWO, splitters=SPL, preempt=0, driver="api", edits=[("rc", 1, 0), ("delrange", 1, 0)])).name)
+THOROUGH.append("pipe_edit_delrange_rc_t1")
 THOROUGH += ["pipe_edit_subst_t1", _reg(Pipeline("T_pipe_edit_indel_rc_t1", 1, _TWO, splitters=SPL, preempt=0, driver="api", edits=[("rc", 1, 0), ("del", 1, 0), ("ins", 1, 0)])).name,
              _reg(Pipeline("T_pipe_edit_subst_multi_t2", 2, _TWO, splitters=SPL, preempt=0, driver="multi", edits=[("subst", 1, 0)])).name]
-for _n in ("pipe_rt_api_t1", "pipe_rt_multi_t2", "T_pipe_rt_api_t2_p1", "T_pipe_rt_multi_t2_store", "T_pipe_rt_single_t2", "pipe_edit_subst_t1", "T_pipe_edit_indel_rc_t1", "T_pipe_edit_subst_multi_t2"):
+for _n in ("pipe_rt_api_t1", "pipe_rt_multi_t2", "T_pipe_rt_api_t2_p1", "T_pipe_rt_multi_t2_store", "T_pipe_rt_single_t2", "pipe_edit_subst_t1", "T_pipe_edit_indel_rc_t1", "T_pipe_edit_subst_multi_t2", "pipe_edit_delrange_rc_t1"):
     INSTANCES[_n].required_witnesses = ("finalized", "extracted")
 
 
